@@ -82,7 +82,7 @@ def main():
         if q in md.CLAIMED:
             rc, o = sh(f'cd {VERIF} && ./check {q} --tier quick', env={'SIMPROCESD_REPO': WT})
             lines = [l for l in o.splitlines() if l.startswith(('VIOLATION', 'KNOWN', q + ' quick', 'infrastructure'))]
-            det[q] = {'rc': rc, 'lines': lines[:3]}
+            det[q] = {'rc': rc, 'lines': ([l for l in lines if l.startswith('VIOLATION')] + [l for l in lines if not l.startswith('VIOLATION')])[:3]}
         else:
             det[q] = light(q)
     res['detection'] = det
